@@ -1,5 +1,5 @@
 // C17: bilinear (bias on/off)
-//   nn_bilinear <dtype> <a> <b> <weight> <hasbias> [<bias>]
+//   nn_bilinear <dtype i|f> <a> <b> <weight> <hasbias> [<bias>]
 #include "c16_common.hpp"
 #include "nmtools/array/view/bilinear.hpp"
 
@@ -7,7 +7,7 @@ namespace view = nmtools::view;
 
 VH_OP(nn_bilinear)
 {
-    vh::with_dtype(in, out, [&](auto t) {
+    vh::with_if(in, out, [&](auto t) {
         using T = decltype(t);
         auto ao = vh::read_operand(in);
         auto bo = vh::read_operand(in);
